@@ -63,6 +63,7 @@ def _case(draw, unit):
         size[0] = (dwtu.even_up(max(size[0] // 2 ** (J - 1), m))) * 2 ** (J - 1)
     return {'dim': dim, 'wave': w, 'wave_row': w2, 'J': J, 'size': size,
             'mode_spelling': draw(st.sampled_from(['periodization', 'periodization', 'per'])),
+            'reused': draw(st.integers(0, 3)) == 0,
             'rx': draw(core.recipe_strategy()), 'ry': draw(core.recipe_strategy()),
             'k': draw(st.integers(0, 10**6))}
 
@@ -100,6 +101,18 @@ def run_case(case):
         else:
             fwd = DWTForward(J=J, wave=dec, mode=msp)
             inv = DWTInverse(wave=rec, mode=msp)
+        sib = dwtu.sibling(w) if (case.get('reused') and not w2) else None
+        if sib is not None:
+            # previous life with a sibling wavelet of the same length, then load_state_dict
+            r.label('reused_module')
+            fcls, icls = type(fwd), type(inv)
+            f2, i2 = fcls(J=J, wave=sib, mode=msp), icls(wave=sib, mode=msp)
+            xw = torch.ones([1, 2] + size, requires_grad=True)
+            o_ = f2(xw)
+            i2((o_[0], list(o_[1]))).sum().backward()
+            f2.load_state_dict(fwd.state_dict())
+            i2.load_state_dict(inv.state_dict())
+            fwd, inv = f2, i2
     ntot = int(np.prod(size))
     full = ntot <= (640 if dim == 1 else 400)
     tol = 1e-9
